@@ -2,7 +2,7 @@
 
 use crate::children::*;
 use crate::ops::{Config, Ctor, PushHow, SubjectKind};
-use crate::world::{with, Tok};
+use crate::world::{with, Tok, K_ANON};
 use futures_buffered::{
     join_all, try_join_all, BufferedStreamExt, BufferedTryStreamExt, FuturesOrdered,
     FuturesOrderedBounded, FuturesUnordered, FuturesUnorderedBounded, MergeBounded, MergeUnbounded,
@@ -160,6 +160,19 @@ impl IntoTok for Tok {
 impl IntoTok for RawTok {
     fn into_tok(self) -> Tok {
         RawTok::into_tok(self)
+    }
+}
+/// A zero-sized output cannot say which child produced it: the harness gets an anonymous token and
+/// the model decides which finished child it stands for.
+impl IntoTok for ZTok {
+    fn into_tok(self) -> Tok {
+        let t = with(|w| {
+            let t = w.new_tok(u32::MAX, 0, K_ANON);
+            w.toks[t.id as usize].nodrop = false;
+            t
+        });
+        drop(self);
+        t
     }
 }
 fn map_stream_g<T: IntoTok>(p: Poll<Option<T>>) -> PollOut {
@@ -669,6 +682,13 @@ pub fn build(cfg: &Config, initial: Vec<u32>) -> Result<Box<dyn Subject>, ()> {
                         Box::new(STjaZ(try_join_all(initial.map(SimFut::<TryZst>::new))))
                     }
                 }
+                SubjectKind::FUB | SubjectKind::FU | SubjectKind::FOB | SubjectKind::FO if cfg.shape & 4 != 0 => {
+                    if cfg.shape & 1 != 0 {
+                        coll!(NdFut<PlainZst>)
+                    } else {
+                        coll!(SimFut<PlainZst>)
+                    }
+                }
                 SubjectKind::FUB | SubjectKind::FU | SubjectKind::FOB | SubjectKind::FO | SubjectKind::JA if cfg.shape & 8 != 0 => {
                     coll!(BigFut<Plain>)
                 }
@@ -706,6 +726,13 @@ pub fn build(cfg: &Config, initial: Vec<u32>) -> Result<Box<dyn Subject>, ()> {
                         _ => mu!(NdSrc<(), PlainRaw>),
                     }
                 }
+                SubjectKind::BU if cfg.shape & 4 != 0 => {
+                    if cfg.shape & 1 != 0 {
+                        Box::new(SBu(Box::pin(SimUp::<UpG<NdFut<PlainZst>>>::new().buffered_unordered(cap))))
+                    } else {
+                        Box::new(SBu(Box::pin(SimUp::<UpG<SimFut<PlainZst>>>::new().buffered_unordered(cap))))
+                    }
+                }
                 SubjectKind::BU => match cfg.shape & 3 {
                     0 => Box::new(SBu(Box::pin(SimUp::<UpG<SimFut<Plain>>>::new().buffered_unordered(cap)))),
                     1 => Box::new(SBu(Box::pin(SimUp::<UpG<NdFut<Plain>>>::new().buffered_unordered(cap)))),
@@ -723,11 +750,20 @@ pub fn build(cfg: &Config, initial: Vec<u32>) -> Result<Box<dyn Subject>, ()> {
                             Box::new(SBo(a)) as Box<dyn Subject>
                         }};
                     }
-                    match cfg.shape & 3 {
+                    match cfg.shape & 7 {
+                        4 | 6 => bo!(SimFut<PlainZst>),
+                        5 | 7 => bo!(NdFut<PlainZst>),
                         0 => bo!(SimFut<Plain>),
                         1 => bo!(NdFut<Plain>),
                         2 => bo!(SimFut<PlainRaw>),
                         _ => bo!(NdFut<PlainRaw>),
+                    }
+                }
+                SubjectKind::TBU if cfg.shape & 4 != 0 => {
+                    if cfg.shape & 1 != 0 {
+                        Box::new(STbu(Box::pin(SimUp::<UpTryG<NdFut<TryZst>, Tok>>::new().try_buffered_unordered(cap))))
+                    } else {
+                        Box::new(STbu(Box::pin(SimUp::<UpTryG<SimFut<TryZst>, Tok>>::new().try_buffered_unordered(cap))))
                     }
                 }
                 SubjectKind::TBU => match cfg.shape & 3 {
@@ -747,7 +783,9 @@ pub fn build(cfg: &Config, initial: Vec<u32>) -> Result<Box<dyn Subject>, ()> {
                             Box::new(STbo(a)) as Box<dyn Subject>
                         }};
                     }
-                    match cfg.shape & 3 {
+                    match cfg.shape & 7 {
+                        4 | 6 => tbo!(SimFut<TryZst>, Tok),
+                        5 | 7 => tbo!(NdFut<TryZst>, Tok),
                         0 => tbo!(SimFut<Try>, Tok),
                         1 => tbo!(NdFut<Try>, Tok),
                         2 => tbo!(SimFut<TryRaw>, RawTok),
